@@ -19,7 +19,7 @@ class Any:
         if endswith is not None:
             self.regexp += escape(endswith)
 
-        self.regexp = compile(self.regexp)
+        self.regexp = compile(self.regexp, DOTALL)
         self.__eq__ = self.eq_for_regexp
         self.__ne__ = self.ne_for_regexp
 
@@ -42,10 +42,10 @@ class Any:
         return False
 
     def eq_for_regexp(self, other):
-        return bool(self.regexp.search(other))
+        return bool(self.regexp.fullmatch(other))
 
     def ne_for_regexp(self, other):
-        return not bool(self.regexp.search(other))
+        return not bool(self.regexp.fullmatch(other))
 
 def anything_like(pkt_class):
     pkt = pkt_class()
